@@ -46,3 +46,19 @@ Proof.
   intros SP RP a p Ha H1 H2.
   exact (legacy_args_equiv_run_all s cx ps SP RP (parse_fuel s) (parse_fuel s) a p Ha H1 H2).
 Qed.
+
+(** why [star_premises] stays a premise: it is NOT true of every context — a
+    context may declare [*] as a specials, and then the token read at a [*] is a
+    specials token with text [*] *)
+Definition star_ctx : context :=
+  {| cx_macros := []; cx_envs := [];
+     cx_specials := [([42%N], {| sp_args := APStd []; sp_body_math := false |})];
+     cx_unk_macro := None; cx_unk_env := None |}.
+
+Lemma star_premises_context_dependent : ~ star_premises [42%N] star_ctx (walker_state star_ctx).
+Proof.
+  intros [_ B].
+  destruct (B 0 {| tk := TkSpecials; targ := [42%N]; tpos := 0; tend := 1; tpre := []; tpost := [] |})
+    as (_ & S & _); [vm_compute; reflexivity|].
+  exact (S eq_refl eq_refl).
+Qed.
